@@ -15,6 +15,8 @@ Inductive vaction :=
 | VEof (n : nat)
 | VCancel (c : nat)
 | VTClose
+| VReadFail (c : nat) (tag : N)        (* the reply to c's query is read by the connection's reader while c's Write is still running; the Write
+                                          then fails; the reader hands the reply over before c, closing the connection, looks for it *)
 | VFailClose (c : nat).                (* the gated write of c fails and the transport is closed while c is inside
                                           closeWithErr; for the transition system: the write error, then Close *)
 
@@ -142,6 +144,13 @@ Definition exec_vaction (s : xst) (held : list nat) (a : vaction) : option (xst 
       Some (close_readers s1, held)
     | None => None
     end
+  | VReadFail c tag =>
+    let n := uconn (xcalls s c) in
+    let r := mkXR tag (match xwaiting (conns s n) with Some (c', _) => Some c' | None => None end) in
+    match xrun s [MRecv n r; MWriteEnd c false; MDispatch n] with
+    | Some s1 => Some (match xstep s1 (MRecvErr n) with Some x => x | None => s1 end, held)
+    | None => None
+    end
   | VFailClose c =>
     match xstep s (MWriteEnd c false) with
     | Some s1 =>
@@ -239,6 +248,11 @@ Fixpoint spec_walk (c01 c02 c09 : bool) (tk : vtrk) (sc : list (vaction * vobs))
       | VWriteEnd c false _ =>
         (true, mkVT (vt_fed tk) (filter (fun x => negb (Nat.eqb (snd x) c)) (vt_outst tk)) (vt_owed tk) (vt_cancelled tk) (vt_closed tk))
       | VCancel c => (true, mkVT (vt_fed tk) (vt_outst tk) (vt_owed tk) (c :: vt_cancelled tk) (vt_closed tk))
+      | VReadFail c tag =>
+        (* the reply was received, and handed over, before the caller gave up on the connection: it is owed *)
+        (true, mkVT ((c, tag) :: vt_fed tk) (filter (fun x => negb (Nat.eqb (snd x) c)) (vt_outst tk))
+                    (if gmem c (vt_cancelled tk) then vt_owed tk else (c, tag) :: vt_owed tk)
+                    (vt_cancelled tk) (vt_closed tk))
       | VTClose | VFailClose _ => (true, mkVT (vt_fed tk) [] (vt_owed tk) (vt_cancelled tk) true)
       | _ => (true, tk)
       end in
@@ -283,7 +297,7 @@ Fixpoint vinwrite_at_end (w : list nat) (sc : list (vaction * vobs)) : list nat 
   match sc with
   | [] => w
   | (a, o) :: t =>
-    let w1 := match a with VWriteEnd c _ _ | VFailClose c => gremove c w | _ => w end in
+    let w1 := match a with VWriteEnd c _ _ | VFailClose c | VReadFail c _ => gremove c w | _ => w end in
     let w2 := fold_left (fun acc e => match e with EvWrite c _ => c :: acc | EvRet c _ _ => gremove c acc | _ => acc end) (v_events o) w1 in
     vinwrite_at_end w2 t
   end.
@@ -320,4 +334,4 @@ Definition spec_c07 (c : case) : bool :=
 Definition vactions (c : case) := match c with CReuse script _ => map fst script end.
 Definition nontrivial (c : case) : bool :=
   (2 <=? length (filter (fun a => match a with VStart _ => true | _ => false end) (vactions c)))%nat
-  && existsb (fun a => match a with VFeed _ _ | VEof _ | VCancel _ | VTClose | VFailClose _ | VWriteEnd _ false _ => true | _ => false end) (vactions c).
+  && existsb (fun a => match a with VFeed _ _ | VEof _ | VCancel _ | VTClose | VFailClose _ | VReadFail _ _ | VWriteEnd _ false _ => true | _ => false end) (vactions c).
